@@ -72,4 +72,10 @@ TEXT.update({
   note="Partial: order independence of Validate over map iteration is sampled, not proved; snapshots trust the reflection walk.",
  ),
 })
+TEXT.update({
+ "C13": dict(
+  level="Theorem (conc/ConcFacts.v): for goroutines that only read the shared value (the Resolved, a Schema tree, options) and consult memo tables whose entries are a function of the key - computing and possibly storing the entry on a miss, with lost stores allowed - every schedule leaves every goroutine in the state it reaches running alone for as many steps, and the tables only ever hold the function's values; instantiated for any number of Validate calls per goroutine on one model Resolved. The tie: the write-footprint ledger (every write through a receiver, parameter or package variable, extracted by go/ast on every run, must equal the classified ledger: per-call values, Resolve-time tables, init-time, memo Store) and a -race harness sharing one Schema/Resolved among 8 goroutines whose results must equal the sequential ones.",
+  note="Partial: memory model/scheduler/sync.Map trusted; race detector sees executed schedules only; alias writes are invisible to the syntactic ledger.",
+ ),
+})
 PENDING = {}
